@@ -1,11 +1,11 @@
 SPECIFICATION Spec
 CONSTANTS
-  BaseIds = {1, 2, 3, 4, 5, 6, 7, 12}
+  BaseIds = {1, 2, 3, 4, 5, 6, 7}
   Toks = {"-q", "-vv", "--ansi", "--no-ansi", "-n", "-h", "-V"}
   MaxSw = 3
   LitToks = {"-q", "-h"}
   MaxLit = 2
-  Behs = {"ok", "code"}
+  Behs = {"ok"}
   Streams = {"none", "out"}
 INVARIANT H_inscope
 INVARIANT P_quiet
